@@ -76,6 +76,7 @@ func checkC01(r *evid.Run) {
 		cfg, nconc, timeout = "MC_C01_thorough.cfg", 7, 30*time.Minute
 	}
 	concs := tok.Concs(r.Seed, nconc, allChunkIDs)
+	concs = append(concs, tok.InvalidUTF8Conc(int(r.Seed), allChunkIDs)) // names are bytes: also bytes that are not UTF-8
 	names := []string{}
 	for _, c := range concs {
 		names = append(names, c.Name)
@@ -98,4 +99,5 @@ func checkC01(r *evid.Run) {
 	r.Set("rule", "every well-formed document of at most MaxLines item lines over the name set (every ordered forest with every pattern of repeated sibling names); non-trivial = at least 3 nodes")
 	traceDocs(r, "C01", traceSpecC01)
 	traceDocs(r, "C01", traceSpecBig)
+	traceDocs(r, "C01", traceSpecDeep)
 }
